@@ -25,6 +25,7 @@ type SolveResult struct {
 	Values   map[string]string
 	QFScript string
 	Reason   string
+	Retried  bool // decided (or given up) only after the second, longer attempt
 }
 
 // ---------------------------------------------------------------- instantiation
